@@ -7,11 +7,15 @@ C02 / C05 — model of the INFORMATION recursion of `_NSIntegralState.increment`
     Wt = self.logw + logL + np.log1p(-np.exp(logt))
     self.logZ = np.logaddexp(self.logZ, Wt)
     if np.isfinite(oldZ) and np.isfinite(self.logZ) and np.isfinite(logL):
+        prev_info = self.info[-1]
+        if len(self.info) == 1 and np.isfinite(self.logLs[-1]):
+            prev_info = self.logLs[-1] - oldZ      # the first point got no entry (oldZ = -inf): its information is log(L/Z)
         info = np.exp(Wt - self.logZ) * logL
-             + np.exp(oldZ - self.logZ) * (self.info[-1] + oldZ)
+             + np.exp(oldZ - self.logZ) * (prev_info + oldZ)
              - self.logZ
         self.info.append(info)
     self.logw += logt
+    self.logLs.append(logL)
 
     log_evidence_error = np.sqrt(self.info[-1] / self.base_nlive)
 
@@ -30,25 +34,27 @@ namespace NessaiVerif.Info
 
 variable {K : Type} [Add K] [Sub K] [Mul K] [Div K] [OfNat K 0] [OfNat K 1] [DecidableEq K]
 
-/-- the part of `_NSIntegralState` the information depends on: `logZ`, `logw`, `info` -/
+/-- the part of `_NSIntegralState` the information depends on: `logZ`, `logw`, `info`, `logLs[-1]` -/
 structure ISt (K : Type) where
   Z : K
   w : K
   info : List K
+  lastL : K
 deriving Repr
 
-/-- `__init__`: `logZ = -inf`, `logw = 0`, `info = [0.0]` -/
-def ISt.init : ISt K := ⟨0, 1, [0]⟩
+/-- `__init__`: `logZ = -inf`, `logw = 0`, `info = [0.0]`, `logLs = [-inf]` -/
+def ISt.init : ISt K := ⟨0, 1, [0], 0⟩
 
 /-- one `increment(logL, nlive)` with shrinkage `t` (as a function of the live count, see Quadrature) -/
 def ISt.step (lg : K → K) (s : ISt K) (L t : K) : ISt K :=
   let Wt := s.w * L * (1 - t)
   let Z' := s.Z + Wt
+  let prev := if s.info.length = 1 ∧ s.lastL ≠ 0 then lg s.lastL - lg s.Z else s.info.getLastD 0
   let info' :=
     if s.Z ≠ 0 ∧ Z' ≠ 0 ∧ L ≠ 0 then
-      s.info ++ [Wt / Z' * lg L + s.Z / Z' * (s.info.getLastD 0 + lg s.Z) - lg Z']
+      s.info ++ [Wt / Z' * lg L + s.Z / Z' * (prev + lg s.Z) - lg Z']
     else s.info
-  ⟨Z', s.w * t, info'⟩
+  ⟨Z', s.w * t, info', L⟩
 
 /-- a sequence of increments; each entry is `(L, t)` -/
 def ISt.run (lg : K → K) (s : ISt K) : List (K × K) → ISt K
@@ -74,9 +80,10 @@ def textbook (lg : K → K) (steps : List (K × K)) : K :=
   let Z := Quad.sumL (terms 1 steps)
   weightedLogs lg 1 steps / Z - lg Z
 
-/-- what the code's recursion yields after at least one increment, in closed form: the first dead point
-enters through `Z₁ lg Z₁` instead of `W₁ lg L₁` (its own information update is skipped because
-`oldZ = -inf`) -/
+/-- what the recursion yields when the first dead point's own information is DROPPED (continuing from
+`info = 0` after the first increment, as the code did before the repair `fix: start the information
+estimate from the first point`): the first point then enters through `Z₁ lg Z₁` instead of `W₁ lg L₁`.
+Kept to state why the repair matters (`C02.info_without_first_point_can_be_negative`). -/
 def closedForm (lg : K → K) : List (K × K) → K
   | [] => 0
   | (L, t) :: rest =>
